@@ -41,22 +41,23 @@ func (e *Ev) DateText() string {
 func (e *Ev) Day() int64 { return ref.DayNumber(e.Y, e.M, e.D) }
 
 type Person struct {
-	Idx     int
-	Ptr     string
-	Given   string
-	Surname string
-	Names   []string // additional NAME values ("Given /Surname/")
-	NameSub []*Spec  // sub-nodes of the first NAME (GIVN, SURN, NPFX...)
-	NoName  bool
-	Sex     string // "M", "F", "U", "" (no SEX line)
-	Events  []*Ev
-	UIDs    []string // _UID values
-	FSIDs   []string // _FSFTID values
-	FamS    []int
-	FamC    []int
-	Living  bool // by construction
-	Extra   []*Spec
-	Tracer  string
+	Idx      int
+	Ptr      string
+	Given    string
+	Surname  string
+	Names    []string // additional NAME values ("Given /Surname/")
+	NameSub  []*Spec  // sub-nodes of the first NAME (GIVN, SURN, NPFX...)
+	NameText string   // if set: the value of the first NAME line as written
+	NoName   bool
+	Sex      string // "M", "F", "U", "" (no SEX line)
+	Events   []*Ev
+	UIDs     []string // _UID values
+	FSIDs    []string // _FSFTID values
+	FamS     []int
+	FamC     []int
+	Living   bool // by construction
+	Extra    []*Spec
+	Tracer   string
 	// Sub: extra children for the first node with the given tag among the
 	// events ("BIRT", "DEAT", ...); BareEv: events written without any child.
 	Sub    map[string][]*Spec
@@ -347,6 +348,9 @@ func (g *FG) PersonSpec(p *Person) *Spec {
 	s := &Spec{Tag: "INDI", Pointer: p.Ptr}
 	if !p.NoName {
 		n := &Spec{Tag: "NAME", Value: p.FullName()}
+		if p.NameText != "" {
+			n.Value = p.NameText
+		}
 		n.Kids = append(n.Kids, p.NameSub...)
 		s.Kids = append(s.Kids, n)
 		for _, x := range p.Names {
